@@ -1,16 +1,22 @@
-(* Model/Queue.v — the single sequencer's batch queue (C10).
-   Mirrors /repo/sequencers/single/queue.go (BatchQueue: AddBatch, Next, Load) and the admission
+(* Model/Queue.v — the single sequencer's batch queue (C10), AFTER the repair of the key scheme
+   (fixes/C10-content-hash-keys.diff).
+   Mirrors /repo/sequencers/single/queue.go (BatchQueue: batchKey, AddBatch, Next, Load) and the admission
    logic of /repo/sequencers/single/sequencer.go (SubmitBatchTxs, GetNextBatch, NewSequencerWithQueueSize).
    Definitions only; proofs are in Proofs/QueueProofs.v.
 
-   Vocabulary.  A batch is identified by its CONTENTS (an id: equal ids = equal transaction lists).
-   The datastore key under which AddBatch stores a batch is an INPUT of the submit step ([SB k b]):
-   in the code it is hex(SHA-256(length-prefixed contents)) (queue.go:56-60, core/sequencer/sequencing.go
-   Batch.Hash), i.e. a function of the contents.  Histories in which the key is an injective function of
-   the contents are [hash_keyedb]; every history the harness produces from the real code is of that form.
-   Keeping the key an input lets the same model also describe key schemes a repair could use
-   (C10_fifo_monotone_keys_partial).  Keys are numbers; their order is the datastore's iteration order
-   (badger iterates in key order; hex encoding preserves byte order). *)
+   Two layers.
+   (1) The KEYED CORE ([step_mem], [step], [run]): the queue as a function of the datastore key each accepted
+       batch is stored under, the key being an INPUT of the submit step ([SB k b]).  It describes the queue
+       for any key scheme; with content-hash keys it is the code BEFORE the repair (see the Examples
+       before_the_repair_* in Props/C10.v).
+   (2) The CODE AS IT IS ([r_step], [r_run], section "the repaired code"): the key is chosen by the queue
+       itself, batchKey(nextSeq, hash) = "s" ++ 16 hex digits of a sequence number ++ "-" ++ hex hash
+       (queue.go:37-44, 71); the model identifies such a key with its sequence number (the hash suffix plays
+       no role for order or uniqueness).  Histories of this layer carry batch CONTENTS only.
+
+   A batch is identified by its contents (an id: equal ids = equal transaction lists).  Keys are numbers;
+   their order is the datastore's iteration order (Load asks for OrderByKey, queue.go:129; fixed-width hex
+   preserves numeric order). *)
 From Coq Require Import NArith List Bool.
 Import ListNotations.
 Open Scope N_scope.
@@ -31,11 +37,11 @@ Fixpoint db_insert (k : key) (b : batch) (d : list entry) : list entry :=
   | (k', b') :: r => if k <? k' then (k, b) :: d else (k', b') :: db_insert k b r
   end.
 
-(* ds.Delete(key): queue.go:101 *)
+(* ds.Delete(key): queue.go:110 *)
 Definition db_del (k : key) (d : list entry) : list entry :=
   filter (fun e => negb (fst e =? k)) d.
 
-(* ds.Put(key, value): queue.go:72 — one record per key *)
+(* ds.Put(key, value): queue.go:83 — one record per key *)
 Definition db_put (k : key) (b : batch) (d : list entry) : list entry :=
   db_insert k b (db_del k d).
 
@@ -47,9 +53,9 @@ Definition apply_w (d : list entry) (w : wr) : list entry :=
 Definition apply_ws (d : list entry) (ws : list wr) : list entry := fold_left apply_w ws d.
 
 (* ---- state ------------------------------------------------------------------------------------ *)
-(* mem = BatchQueue.queue (queue.go:29).  The code keeps only the batch and recomputes its key by
-   hashing at Next (queue.go:94-98); the model remembers the key computed at AddBatch, which is the
-   same value whenever the key is a function of the contents. *)
+(* mem = BatchQueue.queue zipped with BatchQueue.keys (queue.go:29-30): each queued batch with the key it
+   was stored under (AddBatch, queue.go:88-89) or reloaded from (Load, queue.go:148-149); Next deletes that
+   key (queue.go:106-110). *)
 Record qstate := { mem : list entry; db : list entry }.
 
 Definition st0 : qstate := {| mem := []; db := [] |}.
@@ -65,15 +71,15 @@ Inductive out :=
 | ROk                (* SubmitBatchTxs: nil error (also for a skipped empty submission, sequencer.go:92-95) *)
 | RInvalidId         (* ErrInvalidId, sequencer.go:88-90 and 115-117 *)
 | RFull              (* wraps ErrQueueFull, sequencer.go:101-106 *)
-| REmpty             (* GetNextBatch on an empty queue: a batch without transactions, queue.go:87-89 *)
-| RBatch (b : batch) (* GetNextBatch: the head, queue.go:91-107 *).
+| REmpty             (* GetNextBatch on an empty queue: a batch without transactions, queue.go:100-102 *)
+| RBatch (b : batch) (* GetNextBatch: the head, queue.go:104-116 *).
 
-(* queue.go:52  maxQueueSize > 0 && len(queue) >= maxQueueSize  (0 = unlimited) *)
+(* queue.go:63  maxQueueSize > 0 && len(queue) >= maxQueueSize  (0 = unlimited) *)
 Definition full (max : N) (m : list entry) : bool :=
   (0 <? max) && (max <=? N.of_nat (length m)).
 
 (* one operation on the in-memory queue: new queue, result, datastore writes issued (in order).
-   OSubmit: sequencer.go:87-111 + queue.go:47-80;  ONext: sequencer.go:114-128 + queue.go:83-108 *)
+   OSubmit: sequencer.go:87-111 + queue.go:58-93;  ONext: sequencer.go:114-128 + queue.go:96-117 *)
 Definition step_mem (max : N) (m : list entry) (o : op) : list entry * out * list wr :=
   match o with
   | OSubmit false _ => (m, RInvalidId, [])
@@ -90,7 +96,7 @@ Definition step_mem (max : N) (m : list entry) (o : op) : list entry * out * lis
       end
   end.
 
-(* BatchQueue.Load, queue.go:111-141: the queue becomes the records of the datastore in iteration order.
+(* BatchQueue.Load, queue.go:120-158: the queue becomes the records of the datastore in key order.
    Called by NewSequencerWithQueueSize (sequencer.go:76-80) = every process start. *)
 Definition load (d : list entry) : qstate := {| mem := d; db := d |}.
 
@@ -175,24 +181,6 @@ Fixpoint a_run (max : N) (q : list entry) (h : list item) : list entry * list (o
 Definition a_final (max : N) (h : list item) : list entry := fst (a_run max [] h).
 Definition a_outputs (max : N) (h : list item) : list (option out) := snd (a_run max [] h).
 
-(* what "accepted" and "handed out" mean in a run of the specification: the contents, in order *)
-Definition accepted_by (max : N) (q : list entry) (it : item) : list batch :=
-  match it with
-  | IOp (OSubmit true (SB k b)) => if full max q then [] else [b]
-  | ICrash (OSubmit true (SB k b)) (S _) => if full max q then [] else [b]
-  | _ => []
-  end.
-Definition delivered_by (q : list entry) (it : item) : list batch :=
-  match it with
-  | IOp (ONext true) => match q with [] => [] | e :: _ => [snd e] end
-  | ICrash (ONext true) (S _) => match q with [] => [] | e :: _ => [snd e] end
-  | _ => []
-  end.
-Fixpoint a_accepted (max : N) (q : list entry) (h : list item) : list batch :=
-  match h with [] => [] | it :: r => accepted_by max q it ++ a_accepted max (fst (a_item max q it)) r end.
-Fixpoint a_delivered (max : N) (q : list entry) (h : list item) : list batch :=
-  match h with [] => [] | it :: r => delivered_by q it ++ a_delivered max (fst (a_item max q it)) r end.
-
 (* ---- guards (decidable predicates of the history) ------------------------------------------------ *)
 (* strictly increasing *)
 Fixpoint ssorted (l : list N) : bool :=
@@ -256,3 +244,131 @@ Definition fifo_refines (max : N) (h : list item) : Prop :=
   outputs max h = a_outputs max h /\
   mem (final max h) = a_final max h /\
   (forall e, In e (db (final max h)) <-> In e (a_final max h)).
+
+(* ==== the repaired code: keys are chosen by the queue ================================================ *)
+
+(* what a caller hands to SubmitBatchTxs (contents only) *)
+Inductive usub := UNil | UEmpty | UB (b : batch).
+Inductive uop := USubmit (ok : bool) (s : usub) | UNext (ok : bool).
+Inductive uitem := UOp (o : uop) | URestart | UCrash (o : uop) (n : nat).
+
+(* BatchQueue with its sequence counter: nseq = BatchQueue.nextSeq (queue.go:31) *)
+Record rstate := { core : qstate; nseq : N }.
+
+(* Load, queue.go:150-155: continue numbering above every reloaded record (a fresh BatchQueue starts at 0) *)
+Definition next_seq (d : list entry) : N := fold_left (fun a e => N.max a (fst e + 1)) d 0.
+
+(* NewSequencerWithQueueSize -> NewBatchQueue + Load (sequencer.go:66-80): every process start *)
+Definition r_boot (d : list entry) : rstate := {| core := load d; nseq := next_seq d |}.
+Definition r_st0 : rstate := r_boot [].
+
+(* AddBatch stores the batch under batchKey(nextSeq, hash), queue.go:71 *)
+Definition key_op (s : N) (o : uop) : op :=
+  match o with
+  | USubmit ok UNil => OSubmit ok SNil
+  | USubmit ok UEmpty => OSubmit ok SEmpty
+  | USubmit ok (UB b) => OSubmit ok (SB s b)
+  | UNext ok => ONext ok
+  end.
+Definition key_item (s : N) (it : uitem) : item :=
+  match it with
+  | UOp o => IOp (key_op s o)
+  | URestart => IRestart
+  | UCrash o n => ICrash (key_op s o) n
+  end.
+
+(* AddBatch reached its end (queue.go:88-90: append, nextSeq++) *)
+Definition accepts (max : N) (m : list entry) (o : uop) : bool :=
+  match o with USubmit true (UB _) => negb (full max m) | _ => false end.
+
+Definition r_step (max : N) (rst : rstate) (it : uitem) : rstate * option out :=
+  let '(st', r) := step max (core rst) (key_item (nseq rst) it) in
+  match it with
+  | UOp o => ({| core := st'; nseq := if accepts max (mem (core rst)) o then nseq rst + 1 else nseq rst |}, r)
+  | URestart | UCrash _ _ => (r_boot (db st'), r)     (* a new process: counter restored from the records *)
+  end.
+
+Fixpoint r_run (max : N) (rst : rstate) (h : list uitem) : rstate * list (option out) :=
+  match h with
+  | [] => (rst, [])
+  | it :: r =>
+      let '(rst', o) := r_step max rst it in
+      let '(rst'', os) := r_run max rst' r in
+      (rst'', o :: os)
+  end.
+
+Definition r_final (max : N) (h : list uitem) : rstate := fst (r_run max r_st0 h).
+Definition r_outputs (max : N) (h : list uitem) : list (option out) := snd (r_run max r_st0 h).
+
+(* the write log of a history of the repaired code (compared with the recorded datastore writes) *)
+Fixpoint r_wlog (max : N) (rst : rstate) (h : list uitem) : list wr :=
+  match h with
+  | [] => []
+  | it :: r =>
+      wlog max (core rst) [key_item (nseq rst) it] ++ r_wlog max (fst (r_step max rst it)) r
+  end.
+
+(* ---- the specification: a plain FIFO of batch contents ------------------------------------------------ *)
+Definition s_full (max : N) (q : list batch) : bool :=
+  (0 <? max) && (max <=? N.of_nat (length q)).
+
+Definition s_step (max : N) (q : list batch) (o : uop) : list batch * out :=
+  match o with
+  | USubmit false _ => (q, RInvalidId)                      (* foreign chain id: no trace *)
+  | USubmit true UNil | USubmit true UEmpty => (q, ROk)     (* empty submission: no trace *)
+  | USubmit true (UB b) => if s_full max q then (q, RFull)  (* full: rejected, no trace *)
+                           else (q ++ [b], ROk)              (* accepted: enqueue at the back *)
+  | UNext false => (q, RInvalidId)
+  | UNext true => match q with
+                  | [] => (q, REmpty)
+                  | b :: r => (r, RBatch b)                  (* hand out the oldest *)
+                  end
+  end.
+
+(* a restart changes nothing; an operation cut by a crash either did not happen (its write was lost) or
+   happened (its write is durable: a submission then counts as accepted, a hand-out as done) *)
+Definition s_item (max : N) (q : list batch) (it : uitem) : list batch * option out :=
+  match it with
+  | UOp o => let '(q', r) := s_step max q o in (q', Some r)
+  | URestart => (q, None)
+  | UCrash o n => ((match n with O => q | S _ => fst (s_step max q o) end), None)
+  end.
+
+Fixpoint s_run (max : N) (q : list batch) (h : list uitem) : list batch * list (option out) :=
+  match h with
+  | [] => (q, [])
+  | it :: r =>
+      let '(q', o) := s_item max q it in
+      let '(q'', os) := s_run max q' r in
+      (q'', o :: os)
+  end.
+
+Definition s_final (max : N) (h : list uitem) : list batch := fst (s_run max [] h).
+Definition s_outputs (max : N) (h : list uitem) : list (option out) := snd (s_run max [] h).
+
+(* what "accepted" and "handed out" mean in a run of the specification: the contents, in order *)
+Definition accepted_by (max : N) (q : list batch) (it : uitem) : list batch :=
+  match it with
+  | UOp (USubmit true (UB b)) => if s_full max q then [] else [b]
+  | UCrash (USubmit true (UB b)) (S _) => if s_full max q then [] else [b]
+  | _ => []
+  end.
+Definition delivered_by (q : list batch) (it : uitem) : list batch :=
+  match it with
+  | UOp (UNext true) => match q with [] => [] | b :: _ => [b] end
+  | UCrash (UNext true) (S _) => match q with [] => [] | b :: _ => [b] end
+  | _ => []
+  end.
+Fixpoint s_accepted (max : N) (q : list batch) (h : list uitem) : list batch :=
+  match h with [] => [] | it :: r => accepted_by max q it ++ s_accepted max (fst (s_item max q it)) r end.
+Fixpoint s_delivered (max : N) (q : list batch) (h : list uitem) : list batch :=
+  match h with [] => [] | it :: r => delivered_by q it ++ s_delivered max (fst (s_item max q it)) r end.
+
+(* ---- "the queue is a durable exactly-once FIFO on history h" ---------------------------------------------
+   every result equals the specification's; the in-memory queue is exactly the pending batches in acceptance
+   order; the datastore holds exactly the pending batches, one record each, and its key order is their
+   acceptance order (so a restart at this point rebuilds the same queue). *)
+Definition r_fifo (max : N) (h : list uitem) : Prop :=
+  r_outputs max h = s_outputs max h /\
+  map snd (mem (core (r_final max h))) = s_final max h /\
+  map snd (db (core (r_final max h))) = s_final max h.
